@@ -9,9 +9,10 @@
 import Saltpack.Model.Classify
 import Saltpack.Proofs.MsgpackRT
 import Saltpack.Proofs.ArmorRT
+import Saltpack.Proofs.ClassifyAux
 
 namespace Saltpack.Proofs
-open Saltpack Saltpack.Classify Saltpack.Msgpack
+open Saltpack Saltpack.Classify Saltpack.Msgpack Saltpack.Armor ClsAux
 
 /-- the outer bin tag of the header packet: `c4 nn`, `c5 nn nn` or `c6 nn nn nn nn` -/
 def IsBinTag (t : Bytes) : Prop :=
@@ -21,9 +22,93 @@ def IsBinTag (t : Bytes) : Prop :=
 def IsArrTag (t : Bytes) : Prop :=
   (∃ n : UInt8, 0x93 ≤ n ∧ n ≤ 0x9f ∧ t = [n]) ∨ (∃ a b, t = [0xdc, a, b]) ∨ (∃ a b c d, t = [0xdd, a, b, c, d])
 
-theorem bin_short (b : Bytes) (h : b.length < 23) : binarySlice b = .short := by
-  sorry
+namespace ClsAux
 
+theorem minLen_eq : minLen = 23 := by decide
+
+theorem isMode_cases (t : Int) (h : isMode t = true) :
+    t = mtEncryption ∨ t = mtAttached ∨ t = mtDetached ∨ t = mtSigncryption := by
+  unfold isMode at h
+  simp only [Bool.or_eq_true, beq_iff_eq] at h
+  rcases h with ((h | h) | h) | h <;> simp [h]
+
+theorem isMode_le (t : Nat) (h : isMode (t : Int) = true) : t ≤ 3 := by
+  have h0 : mtEncryption = 0 := rfl
+  have h1 : mtAttached = 1 := rfl
+  have h2 : mtDetached = 2 := rfl
+  have h3 : mtSigncryption = 3 := rfl
+  rcases isMode_cases _ h with h | h | h | h <;> omega
+
+/-- what `binarySlice` reads after the two tags, as a function of the rest -/
+def binBody (rest : Bytes) : Verdict (Int × Version) :=
+  match parse1 rest with
+  | .error _ => .notSaltpack
+  | .ok (fn, r1) =>
+    match fn with
+    | .str s | .bin s =>
+      if s != Gen.c_sp_FormatName then .notSaltpack
+      else match parse1 r1 with
+        | .error _ => .notSaltpack
+        | .ok (ver, r2) =>
+          match ver with
+          | .arr (.int ma :: .int mi :: _) =>
+            match parse1 r2 with
+            | .error _ => .notSaltpack
+            | .ok (.int t, _) => if isMode t then .ok (t, ⟨ma, mi⟩) else .notSaltpack
+            | .ok (.bool _, _) => .notSaltpack
+            | .ok (.str _, _) => .notSaltpack
+            | .ok (.bin _, _) => .notSaltpack
+            | .ok _ => .unmodelled "message type shape"
+          | .int _ => .notSaltpack
+          | .bool _ => .notSaltpack
+          | .str _ => .notSaltpack
+          | .bin _ => .notSaltpack
+          | _ => .unmodelled "version shape"
+    | .int _ => .notSaltpack
+    | .bool _ => .notSaltpack
+    | .arr _ => .notSaltpack
+    | .map _ => .notSaltpack
+    | _ => .unmodelled "format name shape"
+
+theorem bin_reduce (b : Bytes) (skip askip : Nat) (hlen : 23 ≤ b.length)
+    (h0 : (let t0 := (b.getD 0 0).toNat
+      if t0 = 0xc4 then some 2 else if t0 = 0xc5 then some 3 else if t0 = 0xc6 then some 5 else none) = some skip)
+    (h1 : (let a := (b.getD skip 0).toNat
+      if 0x93 ≤ a ∧ a ≤ 0x9f then some 1 else if a = 0xdc then some 3 else if a = 0xdd then some 5 else none) = some askip) :
+    binarySlice b = binBody (b.drop (skip + askip)) := by
+  unfold binarySlice
+  rw [minLen_eq, if_neg (by omega)]
+  simp only at h0 h1 ⊢
+  rw [h0]
+  simp only
+  rw [h1]
+  rfl
+
+theorem binBody_correct (ma mi t : Nat) (hma : ma < 128) (hmi : mi < 128) (ht : isMode (t : Int) = true) (tail : Bytes) :
+    binBody (encode (.str Gen.c_sp_FormatName) ++ (encode (.arr [.int ma, .int mi]) ++ (encode (.int t) ++ tail))) =
+      .ok ((t : Int), ⟨ma, mi⟩) := by
+  unfold binBody
+  rw [parse1_encode _ (ValWF.str _ (by decide))]
+  simp only [bne_self_eq_false, Bool.false_eq_true, if_false]
+  rw [parse1_encode _ (ValWF.arr _ (by simp) (by
+    intro v hv
+    simp only [List.mem_cons, List.not_mem_nil, or_false] at hv
+    rcases hv with rfl | rfl
+    · exact ValWF.int _ (by omega) (by omega)
+    · exact ValWF.int _ (by omega) (by omega)))]
+  simp only
+  have htl := isMode_le t ht
+  rw [parse1_encode _ (ValWF.int _ (by omega) (by omega))]
+  simp only [ht, if_true]
+
+end ClsAux
+open ClsAux
+
+theorem bin_short (b : Bytes) (h : b.length < 23) : binarySlice b = .short := by
+  unfold binarySlice
+  rw [minLen_eq, if_pos h]
+
+set_option linter.unusedSimpArgs false in
 /-- **binary classification is correct** for every header start a
     spec-following sender can produce — any bin tag width, any array tag width,
     the format name as a str, `[major, minor]` as fixnums (also unknown minors),
@@ -34,7 +119,50 @@ theorem bin_correct (btag atag tail : Bytes) (hb : IsBinTag btag) (ha : IsArrTag
     (hlen : 23 ≤ (btag ++ atag ++ encode (.str Gen.c_sp_FormatName) ++ encode (.arr [.int ma, .int mi]) ++ encode (.int t) ++ tail).length) :
     binarySlice (btag ++ atag ++ encode (.str Gen.c_sp_FormatName) ++ encode (.arr [.int ma, .int mi]) ++ encode (.int t) ++ tail) =
       .ok ((t : Int), ⟨ma, mi⟩) := by
-  sorry
+  have key : ∀ (skip askip : Nat), btag.length = skip → atag.length = askip →
+      (let t0 := ((btag ++ atag ++ encode (.str Gen.c_sp_FormatName) ++ encode (.arr [.int ma, .int mi]) ++ encode (.int t) ++ tail).getD 0 0).toNat
+        if t0 = 0xc4 then some 2 else if t0 = 0xc5 then some 3 else if t0 = 0xc6 then some 5 else none) = some skip →
+      (let a := ((btag ++ atag ++ encode (.str Gen.c_sp_FormatName) ++ encode (.arr [.int ma, .int mi]) ++ encode (.int t) ++ tail).getD skip 0).toNat
+        if 0x93 ≤ a ∧ a ≤ 0x9f then some 1 else if a = 0xdc then some 3 else if a = 0xdd then some 5 else none) = some askip →
+      binarySlice (btag ++ atag ++ encode (.str Gen.c_sp_FormatName) ++ encode (.arr [.int ma, .int mi]) ++ encode (.int t) ++ tail) =
+        .ok ((t : Int), ⟨ma, mi⟩) := by
+    intro skip askip hs has h0 h1
+    rw [bin_reduce _ skip askip hlen h0 h1]
+    have : (btag ++ atag ++ encode (.str Gen.c_sp_FormatName) ++ encode (.arr [.int ma, .int mi]) ++ encode (.int t) ++ tail).drop (skip + askip)
+        = encode (.str Gen.c_sp_FormatName) ++ (encode (.arr [.int ma, .int mi]) ++ (encode (.int t) ++ tail)) := by
+      have : skip + askip = (btag ++ atag).length := by rw [List.length_append]; omega
+      rw [this]
+      simp only [List.append_assoc]
+      rw [← List.append_assoc btag atag, List.drop_left]
+    rw [this]
+    exact binBody_correct ma mi t hma hmi ht tail
+  rcases hb with ⟨a, rfl⟩ | ⟨a, b, rfl⟩ | ⟨a, b, c, d, rfl⟩ <;>
+    rcases ha with ⟨n, hn1, hn2, rfl⟩ | ⟨a', b', rfl⟩ | ⟨a', b', c', d', rfl⟩
+  all_goals first
+    | (have hn1' : 147 ≤ n.toNat := UInt8.le_iff_toNat_le.mp hn1
+       have hn2' : n.toNat ≤ 159 := UInt8.le_iff_toNat_le.mp hn2
+       apply key _ _ rfl rfl
+       · simp
+       · simp only [List.cons_append, List.getD_cons_succ, List.getD_cons_zero]
+         rw [if_pos ⟨hn1', hn2'⟩]; rfl)
+    | (apply key _ _ rfl rfl <;> simp)
+
+namespace ClsAux
+
+theorem encode_name_len : (encode (.str Gen.c_sp_FormatName)).length = 9 := by decide
+
+theorem encode_small_len (n : Nat) (h : n < 128) : (encode (.int (n : Int))).length = 1 := by
+  rw [encode, encInt, if_pos (by omega), encUInt, if_pos (by simpa using h)]
+  rfl
+
+theorem encode_ver_len (ma mi : Nat) (hma : ma < 128) (hmi : mi < 128) :
+    (encode (.arr [.int ma, .int mi])).length = 3 := by
+  rw [encode, MsgpackRT.encodeList_cons, MsgpackRT.encodeList_cons, MsgpackRT.encodeList_nil]
+  simp only [List.length_append, encode_small_len _ hma, encode_small_len _ hmi, List.length_cons, List.length_nil]
+  rfl
+
+end ClsAux
+open ClsAux
 
 /-- …and on every prefix of at least 23 bytes of such a message -/
 theorem bin_correct_prefix (btag atag tail : Bytes) (hb : IsBinTag btag) (ha : IsArrTag atag)
@@ -42,7 +170,73 @@ theorem bin_correct_prefix (btag atag tail : Bytes) (hb : IsBinTag btag) (ha : I
     (hlen : 23 ≤ (btag ++ atag ++ encode (.str Gen.c_sp_FormatName) ++ encode (.arr [.int ma, .int mi]) ++ encode (.int t) ++ tail).length) :
     binarySlice ((btag ++ atag ++ encode (.str Gen.c_sp_FormatName) ++ encode (.arr [.int ma, .int mi]) ++ encode (.int t) ++ tail).take k) =
       .ok ((t : Int), ⟨ma, mi⟩) := by
-  sorry
+  have hbl : btag.length ≤ 5 := by
+    rcases hb with ⟨a, rfl⟩ | ⟨a, b, rfl⟩ | ⟨a, b, c, d, rfl⟩ <;> simp
+  have hal : atag.length ≤ 5 := by
+    rcases ha with ⟨n, _, _, rfl⟩ | ⟨a', b', rfl⟩ | ⟨a', b', c', d', rfl⟩ <;> simp
+  have h1 := encode_name_len
+  have h2 := encode_ver_len ma mi hma hmi
+  have h3 := encode_small_len t (by have := isMode_le t ht; omega)
+  have hH : (btag ++ atag ++ encode (.str Gen.c_sp_FormatName) ++ encode (.arr [.int ma, .int mi]) ++ encode (.int t)).length ≤ k := by
+    simp only [List.length_append]; omega
+  rw [List.take_append, List.take_of_length_le hH]
+  apply bin_correct btag atag _ hb ha ma mi t hma hmi ht
+  have : (btag ++ atag ++ encode (.str Gen.c_sp_FormatName) ++ encode (.arr [.int ma, .int mi]) ++ encode (.int t) ++ tail).length
+      = (btag ++ atag ++ encode (.str Gen.c_sp_FormatName) ++ encode (.arr [.int ma, .int mi]) ++ encode (.int t)).length + tail.length :=
+    List.length_append
+  rw [List.length_append, List.length_take]
+  omega
+
+namespace ClsAux
+
+/-- the part of `binarySlice` after the format name -/
+def binTail (s r1 : Bytes) : Verdict (Int × Version) :=
+  if s != Gen.c_sp_FormatName then .notSaltpack
+  else match parse1 r1 with
+    | .error _ => .notSaltpack
+    | .ok (ver, r2) =>
+      match ver with
+      | .arr (.int ma :: .int mi :: _) =>
+        match parse1 r2 with
+        | .error _ => .notSaltpack
+        | .ok (.int t, _) => if isMode t then .ok (t, ⟨ma, mi⟩) else .notSaltpack
+        | .ok (.bool _, _) => .notSaltpack
+        | .ok (.str _, _) => .notSaltpack
+        | .ok (.bin _, _) => .notSaltpack
+        | .ok _ => .unmodelled "message type shape"
+      | .int _ => .notSaltpack
+      | .bool _ => .notSaltpack
+      | .str _ => .notSaltpack
+      | .bin _ => .notSaltpack
+      | _ => .unmodelled "version shape"
+
+theorem binTail_sound (s r1 : Bytes) (t : Int) (v : Version) (h : binTail s r1 = .ok (t, v)) :
+    s = Gen.c_sp_FormatName ∧ isMode t = true ∧ ∃ more r2 r3,
+      parse1 r1 = .ok (.arr (.int v.major :: .int v.minor :: more), r2) ∧
+      parse1 r2 = .ok (.int t, r3) := by
+  unfold binTail at h
+  split at h
+  · cases h
+  · rename_i hs
+    refine ⟨by simpa using hs, ?_⟩
+    split at h
+    · cases h
+    · rename_i ver r2 hp2
+      split at h
+      · rename_i ma mi more
+        split at h
+        · cases h
+        · rename_i t' r3 hp3
+          split at h
+          · rename_i hm
+            cases h
+            exact ⟨hm, more, r2, r3, hp2, hp3⟩
+          · cases h
+        all_goals cases h
+      all_goals cases h
+
+end ClsAux
+open ClsAux
 
 /-- **soundness**: an answer implies a bin tag, an array tag, the saltpack format
     name, a version pair and that very mode, in this order, in the bytes -/
@@ -54,19 +248,125 @@ theorem bin_sound (b : Bytes) (t : Int) (v : Version) (h : binarySlice b = .ok (
       (fn = .str Gen.c_sp_FormatName ∨ fn = .bin Gen.c_sp_FormatName) ∧
       parse1 r1 = .ok (.arr (.int v.major :: .int v.minor :: more), r2) ∧
       parse1 r2 = .ok (.int t, r3) := by
-  sorry
+  unfold binarySlice at h
+  rw [minLen_eq] at h
+  split at h
+  · cases h
+  · rename_i hlen
+    simp only at h
+    split at h
+    · cases h
+    · rename_i skip hskip
+      split at h
+      · cases h
+      · rename_i askip haskip
+        have hsk : skip = 2 ∨ skip = 3 ∨ skip = 5 := by
+          revert hskip; repeat' split
+          all_goals simp
+          all_goals omega
+        have hask : askip = 1 ∨ askip = 3 ∨ askip = 5 := by
+          revert haskip; repeat' split
+          all_goals simp
+          all_goals omega
+        split at h
+        · cases h
+        · rename_i fn r1 hp1
+          split at h
+          · rename_i s
+            obtain ⟨hs, hm, more, r2, r3, h2, h3⟩ := binTail_sound s r1 t v h
+            exact ⟨hm, by omega, skip, askip, _, r1, more, r2, r3, hsk, hask, hp1, Or.inl (by rw [hs]), h2, h3⟩
+          · rename_i s
+            obtain ⟨hs, hm, more, r2, r3, h2, h3⟩ := binTail_sound s r1 t v h
+            exact ⟨hm, by omega, skip, askip, _, r1, more, r2, r3, hsk, hask, hp1, Or.inr (by rw [hs]), h2, h3⟩
+          all_goals cases h
 
 /-- an answer never names anything but the four modes -/
 theorem bin_modes (b : Bytes) (t : Int) (v : Version) (h : binarySlice b = .ok (t, v)) :
-    t = mtEncryption ∨ t = mtAttached ∨ t = mtDetached ∨ t = mtSigncryption := by
-  sorry
+    t = mtEncryption ∨ t = mtAttached ∨ t = mtDetached ∨ t = mtSigncryption :=
+  isMode_cases t (bin_sound b t v h).1
 
 /-! ## armored -/
 
 /-- every prefix of a genuine frame line (before its period) is "short" -/
 theorem arm_frame_prefix_short (typ : Int) (ht : Armorable typ) (brand : Bytes) (hb : BrandOK brand) (k : Nat) :
     armoredPrefix ((Armor.header typ brand).take k) = .short := by
-  sorry
+  obtain ⟨htm, sffx, hts, hsm⟩ := armorable_sffx typ ht
+  by_cases hbe : brand = []
+  · subst hbe
+    obtain ⟨k', hk', _, he⟩ := take_cap _ (nobrand_len typ htm) k
+    rw [he]
+    exact nobrand_fin typ htm k' hk'
+  · have hbAN : AN brand := ⟨hbe, fun c hc => alnum_of_brand c (hb.2 c hc)⟩
+    have hcol : collapse ((header typ brand).take k) = (header typ brand).take k :=
+      collapseAux_take _ false k ((frame_canon _ headerMarker_ok (by decide) typ ht brand hb).2.1 false)
+    have hshape : header typ brand =
+        Gen.c_sp_headerMarker ++ [space] ++ brand ++ [space] ++ frameRest sffx := by
+      rw [(header_shape typ sffx hts brand).1, if_neg (by simpa using hbe)]
+      simp [frameRest]
+    rw [armoredPrefix_norm, hcol, hshape]
+    have hBl : (Gen.c_sp_headerMarker ++ [space]).length = 6 := by decide
+    by_cases hk1 : k ≤ 6
+    · -- inside `BEGIN `
+      have : (Gen.c_sp_headerMarker ++ [space] ++ brand ++ [space] ++ frameRest sffx).take k =
+          (Gen.c_sp_headerMarker ++ [space]).take k := by
+        rw [List.append_assoc, List.append_assoc, List.take_append_of_le_length (by omega)]
+      rw [this]
+      have h := begin_fin k (by omega)
+      rw [armoredPrefix_norm] at h
+      have hc0 : collapse ((Gen.c_sp_headerMarker ++ [space]).take k) = (Gen.c_sp_headerMarker ++ [space]).take k :=
+        collapseAux_take (Gen.c_sp_headerMarker ++ [space]) false k (by decide)
+      rw [hc0] at h
+      exact h
+    · by_cases hk2 : k ≤ 6 + brand.length
+      · -- inside the brand
+        have : (Gen.c_sp_headerMarker ++ [space] ++ brand ++ [space] ++ frameRest sffx).take k =
+            intercalateSp [Gen.c_sp_headerMarker, brand.take (k - 6)] := by
+          rw [List.append_assoc, List.append_assoc, List.take_append, List.take_of_length_le (by omega), hBl,
+            List.take_append_of_le_length (by omega)]
+          simp [intercalateSp]
+        have hw : AN (brand.take (k - 6)) := by
+          refine ⟨?_, fun c hc => hbAN.2 c (List.mem_of_mem_take hc)⟩
+          intro h
+          have h1 := congrArg List.length h
+          rw [List.length_take] at h1
+          simp only [List.length_nil] at h1
+          have : 0 < brand.length := List.length_pos_iff.mpr hbe
+          omega
+        rw [this, trimSpace_intercalate _ (by
+          intro w hw'
+          simp only [List.mem_cons, List.not_mem_nil, or_false] at hw'
+          rcases hw' with rfl | rfl
+          · exact ⟨by decide, by decide⟩
+          · exact ⟨hw.1, fun c hc => (alnum_class c (hw.2 c hc)).2.1⟩)]
+        exact norm_two _ hw
+      · -- after the brand
+        have hAl : (Gen.c_sp_headerMarker ++ [space] ++ brand ++ [space]).length = 7 + brand.length := by
+          simp only [List.length_append, hBl, List.length_cons, List.length_nil]; omega
+        have hB : ∀ c ∈ Gen.c_sp_headerMarker, isTrimSpace c = false := by decide
+        rw [List.take_append, List.take_of_length_le (by omega), hAl]
+        by_cases hj : k - (7 + brand.length) = 0
+        · rw [hj, List.take_zero, List.append_nil]
+          have : Gen.c_sp_headerMarker ++ [space] ++ brand ++ [space] =
+              intercalateSp [Gen.c_sp_headerMarker, brand] ++ [space] := by simp [intercalateSp]
+          rw [this, trimSpace_post _ _ (by decide), trimSpace_intercalate _ (by
+            intro w hw'
+            simp only [List.mem_cons, List.not_mem_nil, or_false] at hw'
+            rcases hw' with rfl | rfl
+            · exact ⟨by decide, hB⟩
+            · exact ⟨hbAN.1, fun c hc => (alnum_class c (hbAN.2 c hc)).2.1⟩)]
+          exact norm_two _ hbAN
+        · obtain ⟨j', hj', hj1, he⟩ := take_cap _ (rest_len sffx hsm) (k - (7 + brand.length))
+          obtain ⟨hws, hne, hl3, hi, hchk⟩ := rest_fin sffx hsm j' hj' (hj1 (by omega))
+          rw [he, trimEnd_eq ((frameRest sffx).take j'), ← List.append_assoc,
+            trimSpace_post _ _ (trimEnd_snd _), ← hi, ← intercalateSp_cons2 _ _ _ hne,
+            trimSpace_intercalate _ (by
+              intro w hw'
+              simp only [List.mem_cons] at hw'
+              rcases hw' with rfl | rfl | hw'
+              · exact ⟨by decide, hB⟩
+              · exact ⟨hbAN.1, fun c hc => (alnum_class c (hbAN.2 c hc)).2.1⟩
+              · exact ⟨(hws w hw').1, fun c hc => (alnum_class c ((hws w hw').2 c hc)).2.1⟩)]
+          exact norm_brand brand hbAN _ hne hl3 hws hchk
 
 /-- the frame with its period but fewer than one full block of payload
     characters is "short" -/
@@ -74,7 +374,101 @@ theorem arm_needs_block (typ : Int) (ht : Armorable typ) (brand : Bytes) (hb : B
     (hbody : ∀ c ∈ body, isAlnum c = true ∨ c = Armor.space)
     (hfew : (body.filter (· != Armor.space)).length < 43) :
     armoredPrefix (Armor.header typ brand ++ [Armor.period, Armor.space] ++ body) = .short := by
-  sorry
+  obtain ⟨sffx, hts, hs⟩ := (armorable_sffx typ ht).2
+  have hcan := frame_canon _ headerMarker_ok (by decide) typ ht brand hb
+  have hF : makeFrame Gen.c_sp_headerMarker typ brand = header typ brand := rfl
+  rw [hF] at hcan
+  -- collapse
+  have hcol : collapse (header typ brand ++ [period, space] ++ body) =
+      (header typ brand ++ [period]) ++ (space :: collapseAux true body) := by
+    unfold collapse
+    rw [List.append_assoc, collapseAux_append, hcan.2.1 false]
+    have hp : isFrameSpace period = false := by decide
+    have hsp : isFrameSpace space = true := by decide
+    simp [collapseAux, hp, hsp]
+  -- the collapsed tail
+  have hW : ∀ c ∈ space :: collapseAux true body, isAlnum c = true ∨ c = space := by
+    intro c hc
+    simp only [List.mem_cons] at hc
+    rcases hc with h | hc
+    · exact Or.inr h
+    · rcases collapseAux_mem body true c hc with h | h
+      · exact hbody c h
+      · exact Or.inr h
+  have hWf : (space :: collapseAux true body).filter (· != space) = body.filter (· != space) := by
+    rw [List.filter_cons, collapseAux_filter body hbody true]
+    simp
+  obtain ⟨hZ, hZf⟩ := rtrim_facts _ hW
+  -- trim
+  have hhead : ∀ c ∈ (header typ brand ++ [period]).head?, isTrimSpace c = false := by
+    rw [(header_shape typ sffx hts brand).1]
+    split <;> (intro c hc; simp [Gen.c_sp_headerMarker] at hc; subst hc; decide)
+  have htrim := trim_tail (header typ brand ++ [period]) (space :: collapseAux true body) hhead
+    (by intro c hc; simp at hc; subst hc; decide) (by simp)
+  rw [armoredPrefix_norm, hcol, htrim, List.append_assoc, List.singleton_append]
+  unfold classifyNorm
+  rw [matchHeader_frame typ sffx hts hs brand hb _ hZ]
+  simp only [hZf, hWf]
+  rw [if_pos (decodePrefix_short _ hfew)]
+
+namespace ClsAux
+
+theorem matchTail_type (b : Bytes) (t p : Bytes) (h : matchTail b = some (t, p)) :
+    t = Gen.c_sp_EncryptionArmorString ∨ t = Gen.c_sp_SignedArmorString ∨
+      t = Gen.c_sp_DetachedSignatureArmorString := by
+  unfold matchTail at h
+  split at h
+  · cases h
+  · rename_i r hr
+    simp only at h
+    split at h
+    · rename_i x hx
+      cases h
+      split at hx
+      · cases hx
+      · simp only [Option.map_eq_some_iff, Prod.mk.injEq] at hx
+        obtain ⟨_, _, h1, _⟩ := hx
+        exact Or.inl h1.symm
+    · split at h
+      · rename_i x hx
+        cases h
+        split at hx
+        · cases hx
+        · simp only [Option.map_eq_some_iff, Prod.mk.injEq] at hx
+          obtain ⟨_, _, h1, _⟩ := hx
+          exact Or.inr (Or.inl h1.symm)
+      · split at h
+        · cases h
+        · simp only [Option.map_eq_some_iff, Prod.mk.injEq] at h
+          obtain ⟨_, _, h1, _⟩ := h
+          exact Or.inr (Or.inr h1.symm)
+
+theorem matchHeader_type (s brand t p : Bytes) (h : matchHeader s = some (brand, t, p)) :
+    t = Gen.c_sp_EncryptionArmorString ∨ t = Gen.c_sp_SignedArmorString ∨
+      t = Gen.c_sp_DetachedSignatureArmorString := by
+  unfold matchHeader at h
+  split at h
+  · cases h
+  · rename_i r hr
+    simp only at h
+    split at h
+    · rename_i x hx
+      cases h
+      split at hx
+      · cases hx
+      · split at hx
+        · split at hx
+          · simp only [Option.map_eq_some_iff, Prod.mk.injEq, Prod.exists] at hx
+            obtain ⟨t', p', hm, _, rfl, _⟩ := hx
+            exact matchTail_type _ _ _ hm
+          · cases hx
+        · cases hx
+    · simp only [Option.map_eq_some_iff, Prod.mk.injEq, Prod.exists] at h
+      obtain ⟨t', p', hm, _, rfl, _⟩ := h
+      exact matchTail_type _ _ _ hm
+
+end ClsAux
+open ClsAux
 
 /-- an answer of the armored classifier is an answer of the binary classifier on
     decoded payload bytes, under a frame label that matches the mode -/
@@ -86,11 +480,30 @@ theorem arm_sound (pref brand : Bytes) (t : Int) (v : Version) (h : armoredPrefi
       ((t = mtEncryption ∨ t = mtSigncryption) → typStr = Gen.c_sp_EncryptionArmorString) ∧
       (t = mtAttached → typStr = Gen.c_sp_SignedArmorString) ∧
       (t = mtDetached → typStr = Gen.c_sp_DetachedSignatureArmorString) := by
-  sorry
+  unfold armoredPrefix at h
+  simp only at h
+  split at h
+  · repeat' split at h
+    all_goals cases h
+  · rename_i brand' typStr payload hm
+    split at h
+    · cases h
+    · split at h
+      any_goals cases h
+      rename_i t' ver hbin
+      split at h
+      · cases h
+      · rename_i hlab
+        cases h
+        have hty := matchHeader_type _ _ _ _ hm
+        refine ⟨typStr, payload, _, hm, hbin, hty, ?_⟩
+        have hmode := bin_modes _ _ _ hbin
+        rcases hty with rfl | rfl | rfl <;> rcases hmode with rfl | rfl | rfl | rfl <;>
+          revert hlab <;> decide
 
 /-- classification never consumes: `classifyStream` is a function of the
     peeked bytes (structural — the model threads no reader state at all) -/
 theorem stream_is_pure (size : Nat) (a b : Bytes) (h : a = b) : classifyStream size a = classifyStream size b := by
-  sorry
+  subst h; rfl
 
 end Saltpack.Proofs
